@@ -310,7 +310,8 @@ def multiSys (sets : List SetD) (cs : List Cfg) : Sys MSt :=
         let s := m.sets k
         let s' := m'.sets k
         ((s'.started.drop s.started.length).map (· + off k), (s'.cleaned.drop s.cleaned.length).map (· + off k))
-      { starts := per.flatMap (·.1), cleans := per.flatMap (·.2)
+      { starts := per.flatMap (·.1)
+        cleans := per.flatMap (·.2) ++ (m'.mcleaned.drop m.mcleaned.length).map (fun (k, i) => off k + i)
         ret := if m.ret.isNone then
             match m'.ret with
             | some (.ok rs) => some ("R+" ++ showNatList (sortNat (rs.map fun (k, i) => off k + i)))
